@@ -105,6 +105,16 @@ def rule_nan_aware(ctx):
         ok = bool(uses) and not raw
         ctx.ob("R-nan-aware-lookup", construct(fi, "membership decided through is_equal"), ok, loc(fi),
                "" if ok else "values are compared with == / in: numpy.nan is never equal to itself")
+    # mutators decide whether their two value arguments are "the same value" through is_equal too:
+    # `discarded != kept` is True for two NaNs, so the method would regroup a value into itself
+    for name, fi in gl.methods.items():
+        params = set(fi.params[1:])
+        for c in ast.walk(fi.node):
+            if isinstance(c, ast.Compare) and len(c.ops) == 1 and isinstance(c.ops[0], (ast.Eq, ast.NotEq)):
+                l, r = c.left, c.comparators[0]
+                if isinstance(l, ast.Name) and isinstance(r, ast.Name) and l.id in params and r.id in params:
+                    ctx.ob("R-nan-aware-lookup", construct(fi, f"`{unparse(c)}` compares two values without is_equal"), False, loc(fi, c),
+                           "numpy.nan != numpy.nan: two missing values are treated as distinct, the group is merged into itself and removed")
     fi = ctx.repo.find_function(f"{F_GL}::is_equal")
     txt = unparse(fi.node)
     both = any(
@@ -192,6 +202,7 @@ MUTANTS = [
        "        values_order.append(str_value)  # adding string value to the order\n        values_order.group(value, str_value)  # grouping integer value into the string value\n")], "R-append-absent", "fit_feature"),
     M("contains compares with ==", [(F_GL, "return any(is_equal(value, known) for known in self.values())", "return any(value == known for known in self.values())")], "R-nan-aware-lookup", "contains"),
     M("is_equal forgets missing values", [(F_GL, "    if isna(a) and isna(b):\n        equal = True\n", "")], "R-nan-aware-lookup", "is_equal"),
+    M("group guards with != instead of is_equal", [(F_GL, "        if not is_equal(discarded, kept):\n            # checking that those values exist in the list", "        if discarded != kept:\n            # checking that those values exist in the list")], "R-nan-aware-lookup", "GroupedList.group"),
     M("raw insert on an order", [(F_QUAL, "                    order.append(self.str_nan)\n                    self.values_orders.update({feature: order})\n\n        # filling up NaNs", "                    order.insert(0, self.str_nan)\n                    self.values_orders.update({feature: order})\n\n        # filling up NaNs")], "R-no-raw-mutators", quick=True),
     M("sort_by result discarded in CategoricalDiscretizer", [(F_QUAL, "            self.values_orders.update({feature: order.sort_by(new_order)})", "            order.sort_by(new_order)\n            self.values_orders.update({feature: order})")], "R-sortby-used", "CategoricalDiscretizer.fit"),
     M("get_group tests the leader's truthiness in the comprehension", [(F_GL, "            if any(is_equal(value, elt) for elt in values)\n        ]", "            if any(elt for elt in values if is_equal(value, elt))\n        ]")], "R-value-truthiness", "get_group"),
